@@ -36,5 +36,7 @@ def run(prog, rep, tier):
     import r_build
     apply(rep, "A7", "every sub-expression context builds its operand on a stream of its own, never on the incoming stack (abstract evaluation of build_exec)", r_build.a7(prog), 10)
     apply(rep, "A1b", "predicates do not modify the values they are asked about (write-effect fixpoint over member functions; handles derived from operands)", r_pred.a1b(prog), 40)
+    import r_core
+    apply(rep, "P2b", "after every push/pop/drop the type profile that `?word`/`!word` dispatch on equals the types of the top values (stack class interpreted): `let`, `[ ]` and sub-expressions hand back a stack that dispatches like the one they were given", r_core.p2b(prog, tier), 2)
     apply(rep, "A8", "a predicate that reports an error answers fail", r_pred.a8(prog), 4)
     maybe_mutants("C04", rep, tier)
